@@ -7,6 +7,7 @@ import shapes as S
 PID = 'C01'
 STATS = G.STATS
 PARTIAL = [
+    "point = Cox-de Boor (tensor) sum is assembled through the span search for every parameter of the closed domain (cdb on the half-open domain; at the right end the recursion of the last span, cdbSpan, = left-limit convention), rational quotient included; the statement is about findSpanLinear - evaluation with find_span_binsearch selected is covered through C03/C17 span_search_choice under its tolerance hypothesis",
     "entry points: list = map of single, grid size / ordering / corners (curve, surface, volume) and the zeroth derivative of curves are Lean theorems about the model functions (curveGrid, surfaceGrid, volumeGrid, curveDers); the zeroth derivative of surfaces follows coordinatewise from C02 (k = l = 0); the object layer's dispatch to these functions is tied by correspondence + exact oracle only",
 ]
 ASSUMPTIONS = ["parameters at the domain end are evaluated on the last non-empty span (left limit), as the library does"]
